@@ -343,8 +343,9 @@ pub enum NextItem {
 }
 
 /// Returns the next line to assemble and whether it is an `.elif` whose condition decides the arm
-/// Deepest nesting of parentheses and prefix operators that is handed to the recursive line parser
-const MAX_NESTING: usize = 64;
+/// Most calls of the recursive line parser that one line may keep open at once (see nesting_is_parsable): the worst
+/// line that is let through needs less than 1 MiB of stack in a debug build
+const MAX_NESTING: usize = 128;
 
 /// Most operator characters one operand may hold: a chain `a+b+c+...` builds an expression tree with one level per
 /// operator, and the tree is cloned, compared, printed and dropped recursively
@@ -409,10 +410,8 @@ fn nesting_is_parsable(line: &str) -> bool {
                 operators = 0;
                 after_operand = false;
             }
-            _ => {
-                prefix_run = 0;
-                after_operand = true;
-            }
+            // a name may be the name of a function: the prefix operators in front of it stay open until the operand ends
+            _ => after_operand = true,
         }
         let calls = open_calls
             .saturating_add(prefix_run)
